@@ -91,6 +91,13 @@ impl Engine for SemEngine {
             // (the cyclic-table case of known finding K2 crashes the worker: it is exhibited by the vm engine only)
             .filter(|c| !c.iter().any(|l| l.contains("setprop(readvar($74),readvar($74)")))
             .filter_map(|c| c.into_iter().find(|l| l.starts_with("vm run")).map(|l| vec![format!("sem run {}", l.split(' ').nth(2).unwrap())]))
+            .chain([
+                // known finding K1: a call in statement position leaves its result on the stack;
+                // 300 iterations of a trivial while loop exhaust a 256-slot stack
+                vec!["sem run mod([],[fn($6d61696e,[],[setvar($63,int(#0)),while(less(readvar($63),int(#300)),composite($5f,[call($66,[]),setvar($63,add(readvar($63),int(#1)))])),setglobal($67,int(#1))]),fn($66,[],[return(int(#5))])],[]) strict".to_string()],
+                // known finding K4: a call with too few arguments binds the caller's local
+                vec!["sem run mod([],[fn($6d61696e,[],[setvar($78,int(#1)),setglobal($67,call($66,[])),setglobal($68,readvar($78))]),fn($66,[$61],[return(readvar($61))])],[])".to_string()],
+            ])
             .collect()
     }
 
@@ -102,7 +109,7 @@ impl Engine for SemEngine {
         for op in ops {
             let a: Vec<&str> = op.split(' ').collect();
             let line = match a.as_slice() {
-                ["sem", "run", m] => match parse_module(m) {
+                ["sem", "run", m, ..] => match parse_module(m) {
                     None => "bad-op".to_string(),
                     Some(m) => match compile(m, None) {
                         Err(e) => format!("compile-error:{}", crate::engines::compile::payload_name(&e.payload)),
@@ -121,11 +128,14 @@ impl Engine for SemEngine {
     }
 
     /// the reference semantics has no machine resources and abstains where the language does
-    fn model_equiv(&self, _op: &str, impl_line: &str, model_line: &str) -> bool {
-        if model_line.starts_with("unspecified") || is_resource_err(impl_line) {
+    fn model_equiv(&self, op: &str, impl_line: &str, model_line: &str) -> bool {
+        // `strict`: the program's resource needs are small by construction, so a resource error
+        // of the implementation is not excused
+        if model_line.starts_with("unspecified") || (is_resource_err(impl_line) && !op.ends_with(" strict")) {
             return true;
         }
-        impl_line == model_line
+        let m = model_line.strip_suffix(" k4").unwrap_or(model_line);
+        impl_line == m.strip_suffix(" k1").unwrap_or(m)
     }
 
     fn tags(&self, ops: &[String], impl_out: &[String]) -> Vec<String> {
